@@ -190,11 +190,15 @@ def runStmts (r : Request) (n : Nat) (get : Kw → Except Err Val) : List EStmt 
   | [] => M.pure ()
   | s :: ss => M.bind (runStmt r n get s) fun _ => runStmts r n get ss
 
+/-- sequencing of two throwing statements -/
+def seqE (x k : Except Err Unit) : Except Err Unit :=
+  match x with
+  | .ok _ => k
+  | .error e => .error e
+
 def runChecks (n : Nat) (get : Kw → Except Err Val) : List VStep → Except Err Unit
   | [] => .ok ()
-  | c :: cs => match runCheck n get c with
-    | .ok _ => runChecks n get cs
-    | .error e => .error e
+  | c :: cs => seqE (runCheck n get c) (runChecks n get cs)
 
 /-- `implementation.validate(); return implementation.embed();` as listed in the dispatch block -/
 def runDispatchSteps (r : Request) (n : Nat) (get : Kw → Except Err Val) (m : Meth) : List DispatchStep → M Unit
